@@ -96,3 +96,53 @@ Fixpoint spec_run (forget bound : Z) (capacity : N) (s : sp) (log : list lentry)
 
 Definition spec_check (forget bound : Z) (capacity : N) (log : list lentry) : bool :=
   spec_run forget bound capacity (mkSp [] false) log.
+
+(* ---------- Prop-level vocabulary for the theorems (props/C16.v) ---------- *)
+From LV Require Import model.Fetcher.
+
+(* Who may be asked for what, kept WITHOUT looking at the fetcher's tables: (peer, id) enters when
+   peer announces id and id is reported interesting; every pair of id leaves when id is reported
+   received, or reported not interesting at a timer pass the loop really takes. *)
+Definition ghost := list (N * N).
+Definition ghost_step (st : state) (g : ghost) (ev : event) : ghost :=
+  match ev with
+  | ENotify peer _ _ interested _ _ => map (fun id => (peer, id)) interested ++ g
+  | EReceived ids => filter (fun pi => negb (memN (snd pi) ids)) g
+  | ETick => g
+  | ETimer interested _ _ => if timer_chan st then filter (fun pi => memN (snd pi) interested) g else g
+  end.
+
+(* every request of every step of a trace is covered by the ghost *)
+Fixpoint safe_run (c : cfg) (st : state) (g : ghost) (tr : list (Z * event)) : Prop :=
+  match tr with
+  | [] => True
+  | (now, ev) :: tr' =>
+    let g' := ghost_step st g ev in
+    (forall p ids id, In (p, ids) (snd (step true c st now ev)) -> In id ids -> In (p, id) g') /\
+    safe_run c (fst (step true c st now ev)) g' tr'
+  end.
+
+Definition cfg_wf (c : cfg) : Prop := (0 <= c_arrive8 c <= c_arrive c)%Z.
+
+(* states reachable by any event sequence with non-decreasing clock; the index is the time of the
+   last event *)
+Inductive reachT (c : cfg) (t0 : Z) : Z -> state -> Prop :=
+| reachT_init : reachT c t0 t0 (init t0)
+| reachT_step now st now' ev : reachT c t0 now st -> (now <= now')%Z ->
+    reachT c t0 now' (fst (step true c st now' ev)).
+
+(* the bounded-response invariant: while anything is announced, a timer pass is pending - its value
+   is already in the channel, or the timer is armed and due within ArriveTimeout *)
+Definition pass_pending (c : cfg) (now : Z) (st : state) : Prop :=
+  ann st <> [] ->
+  timer_chan st = true \/ exists due, timer_due st = Some due /\ (due <= now + c_arrive c)%Z.
+
+(* what a timer pass owes: id is held, reported interesting, its first announcement is not older than
+   ForgetTimeout, and it was not requested during the last ArriveTimeout - GatherSlack *)
+Definition owed (c : cfg) (st : state) (now : Z) (id : N) : Prop :=
+  exists e oldest more, lru_find id (ann st) = Some e /\ e_val e = oldest :: more /\
+    (now - a_time oldest <= c_forget c)%Z /\
+    match f_find id (fetching st) with
+    | Some (_, ft) => (c_arrive c - c_slack c < now - ft)%Z
+    | None => True
+    end.
